@@ -15,7 +15,7 @@ func init() { register("C06", checkC06) }
 
 func checkC06(c *Ctx, r *Report) {
 	r.Explanation = "R1 PROVENANCE on the emitted constants (ERROR_ACTION/ACCEPT_ACTION holes must be filled by the producers that also fill the table cells, in every backend); R4 on the two producers (len(states)+positive distinct constants); R4/R2 on every Go skeleton's driver loop (error class → panic whose text starts with `Grammar error`, no push / token fetch / reduce on that path; accept returns without pushing; both codes are tested before the sign test); bounds-guard dominance in the packed Action reader; TypeScript driver by token-tree rules. Not decided: that the first bad token is detected on particular inputs (needs exact tables: C03, C05) and termination of reduce sequences."
-	r.Assumptions = append(r.Assumptions, "user-supplied GetToken and semantic actions do not panic", "generated tables are exact (C03, C05)")
+	r.Assumptions = append(r.Assumptions, "user-supplied GetToken and semantic actions do not panic", "generated tables are exact before compression (C03); the compression itself is a prerequisite here (C05)")
 	st := c.GetStaged()
 	stagedErrors(r, "C06", st)
 	c06a(c, r, st)
@@ -24,7 +24,9 @@ func checkC06(c *Ctx, r *Report) {
 	c06d(c, r, st)
 	// default reductions may replace error cells only through the row default itself: a cell is blanked exactly when
 	// it equals its own row's default, otherwise an error cell (e.g. the %nonassoc one) silently becomes a reduce
-	includeSome(r, "C06.d", func(sub *Report) { c05c(c, sub) }, "blank-equals-own-default")
+	// — and more generally an error cell must read back as the error code from the packed and the split tables: an
+	// unowned slot that reads as owned by some row turns the error into a shift/reduce by garbage (C05 as a whole)
+	includePrereq(c, r, "C06.d", checkC05)
 	// the cell of an unresolvable (%nonassoc) conflict must hold the error code: GenTable leaves the prefill alone for
 	// an ERROR action (C04.d)
 	includeSome(r, "C06.d", func(sub *Report) { c04d(c, sub) }, "ERROR-keeps-prefill", "cell-writer")
